@@ -403,7 +403,7 @@ pub fn run_history(tape: &mut Tape, hp: &HistParams, detail: bool) -> HistReport
                 DirKind::Sharded(n) => shard_capacity(d.capacity, n),
             };
             // read-only handles use capacity usize::MAX and never maintain
-            match sc_model::check_maintenance(&ep.before, &ep.after(), &ep.restamped.iter().map(|r| r.0.clone()).collect::<Vec<_>>(), cap, ep.now, gran) {
+            match sc_model::check_maintenance(&ep.before, &ep.after(), &ep.restamped.iter().map(|r| r.0.clone()).collect::<Vec<_>>(), cap, ep.now, gran, kn.strict_order()) {
                 Ok(s) => {
                     bump(&mut counters, "episodes");
                     evictions_seen += s.evicted as u64;
@@ -726,7 +726,7 @@ pub fn run_history(tape: &mut Tape, hp: &HistParams, detail: bool) -> HistReport
                 let after_model = ep.after_of(&model_before);
                 let names: Vec<String> = ep.restamped.iter().map(|r| r.0.clone()).collect();
                 bump(&mut counters, "final_prunes");
-                if let Err(e) = sc_model::check_maintenance(&model_before, &after_model, &names, cap, ep.now, gran) {
+                if let Err(e) = sc_model::check_maintenance(&model_before, &after_model, &names, cap, ep.now, gran, kn.strict_order()) {
                     findings.push(Finding { prop: "marks", v: Violation::new("marks-not-honoured", format!("pruning {} to {} entries did not treat the entries as the history marked them (READ = looked up / touched / put-onto since its last write): {} [{}]; model: {:?}", pd, cap, e, kn.describe(), model_before.iter().map(|e| (e.name.clone(), e.mtime, e.atime >= e.mtime)).collect::<Vec<_>>())) });
                     break 'prune;
                 }
